@@ -14,18 +14,57 @@ _SQLITE_WRITE = frozenset(
 )
 
 
+# Option flags that take one argument
+_FLAGS_WITH_ARG = (
+    "-cmd",
+    "-init",
+    "-key",
+    "-hexkey",
+    "-textkey",
+    "-maxsize",
+    "-newline",
+    "-nonce",
+    "-nullvalue",
+    "-pagecache",
+    "-separator",
+    "-vfs",
+    "-escape",
+    "-A",
+)
+
+
+def _option_words(tokens: list[str]) -> list[str]:
+    """The words sqlite3 reads as options, leaving out the values of other options."""
+    options = []
+    i = 1
+    while i < len(tokens):
+        token = tokens[i]
+        if token.startswith("-"):
+            options.append(token)
+        if token in _FLAGS_WITH_ARG:
+            i += 2
+        elif token == "-lookaside":
+            i += 3
+        else:
+            i += 1
+    return options
+
+
 def classify(ctx: HandlerContext) -> Classification:
     tokens = ctx.tokens
     # Help/version
     if any(t in ("-help", "--help", "-version") for t in tokens):
         return Classification("allow", description="sqlite3 help/version")
 
+    # Words in option position ("-separator -readonly" passes -readonly as a value)
+    options = _option_words(tokens)
+
     # Check for -readonly or -safe flags - always safe
-    if "-readonly" in tokens or "-safe" in tokens:
+    if "-readonly" in options or "-safe" in options:
         return Classification("allow", description="sqlite3 (read-only mode)")
 
     # Check for -init (runs a script file - unknown content)
-    if "-init" in tokens:
+    if "-init" in options:
         return Classification("ask", description="sqlite3 (init script)")
 
     # Extract SQL from command line
@@ -70,22 +109,7 @@ def classify(ctx: HandlerContext) -> Classification:
             i += 1
             continue
         # Skip option flags that take one argument
-        if token in (
-            "-cmd",
-            "-init",
-            "-key",
-            "-hexkey",
-            "-textkey",
-            "-maxsize",
-            "-newline",
-            "-nonce",
-            "-nullvalue",
-            "-pagecache",
-            "-separator",
-            "-vfs",
-            "-escape",
-            "-A",
-        ):
+        if token in _FLAGS_WITH_ARG:
             if token == "-cmd" and i + 1 < len(tokens):
                 sql_parts.append(tokens[i + 1])
             i += 2
